@@ -207,8 +207,14 @@ func orSpan(nary *ast.Nary, fields []string) (string, []span) {
 			return "", nil
 		}
 		for _, espan := range espans {
+			if espan.none() {
+				continue // e.g. x < "" contributes nothing to an or
+			}
 			spans = mergeSpan(spans, espan)
 		}
+	}
+	if len(spans) == 0 {
+		return col, conflictSpans
 	}
 	sortByOrg(spans)
 	return col, spans
